@@ -118,6 +118,27 @@ def staircases():
     return out
 
 
+OPENERS = ["- a\n", "> b\n", "1. c\n", ":::{note}\n", "::::{note} T\n", ".. note::\n\n", "```{note}\n", ">! s\n", "t\n: d\n", "# h\n", "***\n", "<div>\n", "[^n]: x\n",
+           "    code\n", "| a |\n|---|\n", "$$\n", ".. note:: T\n   :class: c\n\n"]
+
+
+def interruptions():
+    """systematic: every ordered pair of block openers (containers of core and plugins, directives of all three styles, leaf
+    blocks) repeated 130 times line after line, flat and as an indentation staircase: each block may be parsed in place by the
+    one it interrupts, or nested in it"""
+    out = []
+    for a in OPENERS:
+        for b in OPENERS:
+            if a < b and (a[0] in "->1:.`t" or b[0] in "->1:.`t"):
+                out.append((a + b) * 130)
+                if a[0] in ":.`" or b[0] in ":.`":
+                    out.append("".join("   " * i + a.replace("\n", "\n" + "   " * i).rstrip(" ") + "   " * i + b.replace("\n", "\n" + "   " * i).rstrip(" ") for i in range(130)))
+    return out
+
+
+INTERRUPT_CFGS = [{"renderer": "html", "plugins": ["def_list", "spoiler", "footnotes", "table", "math"], "directives": d} for d in ("colon", "colon+rst", "fenced+rst", "rst")]
+
+
 def surrogate(r):
     s = r.choice(["\ud800", "\udfff", "\udc80"])
     return r.choice(["[a](%s)", "<http://x/%s>", "text %s", "![i](/p%s 't')", "[r]: /u%s\n\n[r]", "```%s\nc\n```", "| %s |\n|-|\n", "https://e.x/%s"]) % s + "\n"
@@ -201,6 +222,12 @@ def oracle(ctx, extra):
             for cfg in ({"renderer": "html", "plugins": list(P)}, {"renderer": "ast", "plugins": list(P), "hard_wrap": True}):
                 check(w, cfg, doc, fails, limit)
                 n += 1
+        inter = interruptions()
+        for j, doc in enumerate(inter if not ctx.quick else [d for i, d in enumerate(inter) if ":" in d[:40] or "." in d[:40] or "`" in d[:40] or i % 3 == 0]):
+            dist["pump"] += 1
+            for cfg in (INTERRUPT_CFGS if not ctx.quick else [INTERRUPT_CFGS[j % 2], INTERRUPT_CFGS[2 + j % 2]]):
+                check(w, dict(cfg), doc, fails, limit)
+                n += 1
         for i in range(ctx.n(3000, 60000)):
             k = r.random()
             if k < 0.45:
@@ -244,7 +271,7 @@ def oracle(ctx, extra):
     fails = [f for f in fails if not f.get("class")] + known[:3]
     return {"evaluations": n, "distinct_nontrivial": n // 2, "failures": fails, "known_finding_instances": len(known),
             "input_distribution": dist,
-            "rule": "first 84 systematic indentation staircases (10 marker sets of core and plugin containers x step 2/3/4 x with/without a head line, and 6 lone markers x step 2/3 x at top level/inside 5 quotes; 400 levels) under all plugins, html and ast; then documents: 45% generated (all plugins, directives), 15% nesting pumps (quotes, lists, mixed containers, "
+            "rule": "first every ordered pair of 17 block openers (containers, directives of the three styles, leaf blocks) repeated 130 times line after line, flat and as a staircase, under colon / colon+rst / fenced+rst / rst directive configurations; 84 systematic indentation staircases (10 marker sets of core and plugin containers x step 2/3/4 x with/without a head line, and 6 lone markers x step 2/3 x at top level/inside 5 quotes; 400 levels) under all plugins, html and ast; then documents: 45% generated (all plugins, directives), 15% nesting pumps (quotes, lists, mixed containers, "
                     "emphasis, brackets, alternating link/image, code ticks, angle brackets, indentation staircases of block markers, RST/colon/backtick directives, "
                     "formatting plugins, repeated units of every inline plugin syntax (up to 3200 adjacent tokens), def lists and tables; depth/length 8-400), 12% generated documents with hostile code "
                     "points inserted (controls, line/paragraph separators, BOM, non-characters, combining, bidi, astral), 3% lone "
